@@ -48,10 +48,14 @@ func c08Fixtures() {
 		return
 	}
 	c08Once = true
-	for _, s := range []string{"$.a", "$.b[1]", "$..d", "$.b[*]", "$['a','c']", "$.b[0:2]", "$.b[?(@ > 1)]", "$.c[?(@.d > 1)].d", "$.*", "$..[?(@.d)]", "$.b[-1]", "$.c.e[?(@.x == 'y')]", "$.c[?(length(@) > 0)]"} {
+	// the first six are plain paths (also used as Set targets), the rest exercise every filter feature
+	for _, s := range []string{"$.a", "$.b[1]", "$..d", "$.b[*]", "$['a','c']", "$.b[0:2]", "$.b[?(@ > 1)]", "$.c[?(@.d > 1)].d", "$.*", "$..[?(@.d)]", "$.b[-1]", "$.c.e[?(@.x == 'y')]", "$.c[?(length(@) > 0)]",
+		"$.c.e[?(@.x =~ 'y|q')]", "$..[?(search(@.x, 'z'))]", "$.b[?(@ in [1,3])]", "$.c.e[?(@.x ~= /^[yz]$/)]", "$.c.e[?(match(@.x, '.'))]", "$.c.e[?(@.d exists true)]", "$.b[?(@ + 1 > 2)]", "$.c.e[?(@.x =~ 'z')].d", "$.c.e[?(count(@.*) > 1)]"} {
 		c08Exprs = append(c08Exprs, jp.MustParseString(s))
 	}
-	for _, s := range []string{"(@.d > 1)", "(@.x == 'y' || @.d < 0)", "(@ > 1 && @ < 3)", "(@.d in [1,2,3])", "(length(@.s) > 1)"} {
+	for _, s := range []string{"(@.d > 1)", "(@.x == 'y' || @.d < 0)", "(@ > 1 && @ < 3)", "(@.d in [1,2,3])", "(length(@.s) > 1)",
+		"(@.s ~= /s.r/)", "(@.s =~ 'st.')", "(@.x ~= 'y|z')", "(match(@.s, 'st.'))", "(search(@.s, 'r'))", "(search(@.s, 't'))", "(count(@.arr) == 2)", "(@.d + 1 == 3)",
+		"(@.d * 2 - 1 >= 3)", "(@.d / 2 < 1)", "(!(@.d == 2))", "(@.x has true)", "(@.zz exists false)", "(@.arr empty false)", "(@.d != 2 && @.x != 'q')", "(@.d <= 2)", "(@.s =~ '^s')", "(match(@.x, 'y'))"} {
 		c08Scripts = append(c08Scripts, jp.MustNewScript(s))
 	}
 	c08Opts = []*ojg.Options{
@@ -82,6 +86,21 @@ var c08Menu = []string{
 	"pretty.JSON", "pretty.SEN", "alt.Decompose", "alt.Generify", "alt.Recompose", "gen.Parser",
 	"jp.Get", "jp.First", "jp.Has", "jp.Locate", "jp.Walk", "jp.Set", "jp.Del", "jp.Modify", "jp.Remove", "Script.Match", "Script.Eval",
 	"sen.Unmarshal", "oj.Match",
+	// aborted calls: the error paths run concurrently with everybody else's calls
+	"oj.Marshal(unencodable)", "oj.Marshal(failing Marshaler)", "oj.JSON(panicking Simplifier)", "oj.Write(failing writer)", "sen.Write(failing writer)",
+	"sen.String(panicking Simplifier)", "oj.Load(reader error)", "oj.Parse(panicking callback)", "oj.Tokenize(panicking handler)", "sen.Parse(panicking callback)", "oj.Marshal(failing TextMarshaler)",
+}
+
+type failingMarshaler struct{ N int }
+
+func (f failingMarshaler) MarshalJSON() ([]byte, error) {
+	return nil, fmt.Errorf("verif: injected MarshalJSON error %d", f.N)
+}
+
+type failingTextMarshaler struct{ N int }
+
+func (f failingTextMarshaler) MarshalText() ([]byte, error) {
+	return nil, fmt.Errorf("verif: injected MarshalText error %d", f.N)
 }
 
 func drawVal08(t *rapid.T) (any, string) {
@@ -122,6 +141,9 @@ func drawVal08(t *rapid.T) (any, string) {
 func drawOp08(t *rapid.T) *op08 {
 	o := &op08{Fn: c08Menu[sim.Intn(t, len(c08Menu), "fn")], A: sim.Intn(t, 16, "a"), B: sim.Intn(t, 16, "b")}
 	switch {
+	case o.Fn == "oj.Marshal(unencodable)":
+		o.Val = make(chan int)
+	case strings.Contains(o.Fn, "failing") || strings.Contains(o.Fn, "panicking") || strings.Contains(o.Fn, "reader error"):
 	case strings.HasPrefix(o.Fn, "oj.JSON"), strings.HasPrefix(o.Fn, "oj.Marshal"), strings.HasPrefix(o.Fn, "oj.Write"), strings.HasPrefix(o.Fn, "sen.String"), o.Fn == "sen.Bytes", o.Fn == "sen.Write", strings.HasPrefix(o.Fn, "pretty."), o.Fn == "alt.Decompose":
 		o.Val, o.Desc = drawVal08(t)
 		// package-level calls without options write maps in Go's map order: keep those order independent
@@ -300,10 +322,62 @@ func (o *op08) exec() (r ret08) {
 		r.canon = fmt.Sprint(err != nil) + ref.Exact(out)
 	case "Script.Match":
 		s := c08Scripts[o.B%len(c08Scripts)]
-		r.canon = fmt.Sprint(s.Match(map[string]any{"d": int64(o.A % 4), "x": "y", "s": "str"}), s.Match(int64(o.A%4)))
+		r.canon = fmt.Sprint(s.Match(map[string]any{"d": int64(o.A % 4), "x": []string{"y", "z", "q"}[o.A%3], "s": []string{"str", "stir", "x"}[o.A%3], "arr": []any{1, 2}}), s.Match(int64(o.A%4)))
+	case "oj.Marshal(unencodable)":
+		text(oj.Marshal([]any{true, "x", o.Val}))
+	case "oj.Marshal(failing Marshaler)":
+		text(oj.Marshal([]any{1, failingMarshaler{o.A}, "after"}))
+	case "oj.Marshal(failing TextMarshaler)":
+		text(oj.Marshal(map[string]any{"k": failingTextMarshaler{o.A}}))
+	case "oj.JSON(panicking Simplifier)":
+		s := oj.JSON([]any{"before", &boom{Armed: true, V: 1}, 2})
+		r.canon = s
+	case "sen.String(panicking Simplifier)":
+		s := sen.String([]any{"before", &boom{Armed: true, V: 1}, 2})
+		r.canon = s
+	case "oj.Write(failing writer)":
+		sw := sim.NewSimWriter(o.B % 2)
+		op := ojg.Options{WriteLimit: 4, Sort: true}
+		err := oj.Write(sw, []any{1, "two", []any{3, 4, 5}, "six"}, &op)
+		r.canon = fmt.Sprint(err != nil)
+		if o.B%3 == 0 {
+			sw2 := sim.NewSimWriter(0)
+			r.canon += fmt.Sprint(oj.Write(sw2, []any{1, "two"}) != nil)
+		}
+	case "sen.Write(failing writer)":
+		sw := sim.NewSimWriter(0)
+		r.canon = fmt.Sprint(sen.Write(sw, []any{1, "two", []any{3, 4, 5}}) != nil)
+	case "oj.Load(reader error)":
+		rd := sim.NewSimReader(doc(o.A), &sim.Schedule{Every: 3, FailAt: o.B % 7})
+		_, err := oj.Load(rd)
+		r.canon = fmt.Sprint(err != nil)
+	case "oj.Parse(panicking callback)":
+		n := 0
+		_, err := oj.Parse([]byte(`1 [2] {"a":3} 4`), func(v any) bool {
+			n++
+			if n == 1+o.B%3 {
+				panic("verif: injected callback panic")
+			}
+			return false
+		})
+		r.canon = fmt.Sprint(err != nil)
+	case "sen.Parse(panicking callback)":
+		n := 0
+		_, err := sen.Parse([]byte(`1 [2] {a:3} 4`), func(v any) bool {
+			n++
+			if n == 1+o.B%3 {
+				panic("verif: injected callback panic")
+			}
+			return false
+		})
+		r.canon = fmt.Sprint(err != nil)
+	case "oj.Tokenize(panicking handler)":
+		h := &panickyHandler{builderHandler: newBuilderHandler(), at: o.B % 5, r: &res07{}}
+		err := oj.Tokenize(doc(o.A), h)
+		r.canon = fmt.Sprint(err != nil)
 	case "Script.Eval":
 		s := c08Scripts[o.B%len(c08Scripts)]
-		data := []any{map[string]any{"d": int64(1)}, map[string]any{"d": int64(2), "x": "y"}, int64(2), map[string]any{"s": "abc"}}
+		data := []any{map[string]any{"d": int64(1)}, map[string]any{"d": int64(2), "x": "y", "arr": []any{1, 2}}, int64(2), map[string]any{"s": "str", "x": "z"}}
 		r.canon = ref.Exact(s.Eval([]any{}, data))
 	}
 	r.snap = snapshot(r.retained)
